@@ -4,6 +4,7 @@ CONSTANT MaxNow = 5
 CONSTANT ActiveT = 2
 CONSTANT InactiveT = 3
 CONSTANT MaxRetries = 1
+CONSTANT MinU = 0
 INVARIANT Agreement
 INVARIANT ReadyComplete
 INVARIANT RetriesBounded
